@@ -270,7 +270,12 @@ def scenario_strategy():
             return dict(v, v={"".join(ch if not 0xD800 <= ord(ch) <= 0xDFFF else "s" for ch in k): x for k, x in v["v"].items()})
         return v
 
-    return st.builds(lambda v, t, c: {"scenario": {"value": fit(v, t), "topology": t, "cache": c}, "point": None},
+    def topo(v, t):
+        # the caller of the "chain" topology returns [callee's value, 1]: a partition inside a list is not a result type
+        # (the list would be pickled with a partition that lives in a temporary directory)
+        return "single" if (t == "chain" and "t" in v and values.is_partition_desc(v)) else t
+
+    return st.builds(lambda v, t, c: {"scenario": {"value": fit(v, topo(v, t)), "topology": topo(v, t), "cache": c}, "point": None},
                      val, st.sampled_from(["single", "twin", "chain", "override", "override-shared"]), st.booleans())
 
 
